@@ -1,8 +1,49 @@
 package main
 
-import "fmt"
+import (
+	"fmt"
+	"path/filepath"
+	"runtime"
+)
 
+// cmdSelftest runs the VST_* programs through the executor and natively.
 func cmdSelftest(args []string) int {
-	fmt.Println("selftest: see `vcheck run VST_*` harnesses")
+	ld, err := Load(nil)
+	if err != nil {
+		fmt.Println("selftest: load failed:", err)
+		return 1
+	}
+	bad := 0
+	for _, name := range []string{"VST_Semantics", "VST_Symbolic"} {
+		hs, err := runHarness(ld, "selftest", HarnessSpec{Name: name, NeedReach: []string{"end"}}, &KnownFindings{}, runtime.NumCPU())
+		if err != nil {
+			fmt.Println("selftest:", name, "engine error:", err)
+			bad++
+			continue
+		}
+		if len(hs.Findings) > 0 || hs.Reached["end"] == 0 || hs.Outcomes["return"] != hs.Paths {
+			fmt.Printf("selftest: %s FAILED in the executor: outcomes=%v findings=%d\n", name, hs.Outcomes, len(hs.Findings))
+			for _, f := range hs.Findings {
+				fmt.Println("   ", f.Site, f.Msg)
+			}
+			bad++
+			continue
+		}
+		okn := 0
+		for i, w := range hs.Witnesses {
+			f := &Finding{Harness: name, Site: "witness", Model: w.Witness}
+			rr := replayP(ld, hs.fn, f, filepath.Join(ld.verif, "replays", "selftest", fmt.Sprintf("%s-%d", name, i+1)), nil)
+			if rr.Outcome != "clean" {
+				fmt.Printf("selftest: %s native run disagrees: %s\n", name, rr.Outcome)
+				bad++
+			} else {
+				okn++
+			}
+		}
+		fmt.Printf("selftest: %s ok (%d paths, %d native witnesses agree)\n", name, hs.Paths, okn)
+	}
+	if bad > 0 {
+		return 1
+	}
 	return 0
 }
